@@ -570,6 +570,33 @@ def register_chain2(reg, stubs, world):
                          'the text denotes (no name dropped, none added), with the given default rule; ValueError for text that is '
                          'not a mapping'))
 
+    # ------------------------------------------------------------------ Rules.from_dict
+    def fd_pre(cx):
+        eng, st, d = cx.eng, cx.st0, cx['rules_dict']
+        return [('rules-are-given-as-a-dict-object', z3.And(V.is_obj(d), eng.isinst_ref(V.ref(d), 'dict'), V.is_dict(eng.val(st, d))))]
+
+    def fd_post(cx, out):
+        eng = cx.eng
+        if out.kind != 'ret':
+            return [False]
+        r = out.value
+        src = V.m(eng.val(cx.st0, cx['rules_dict']))
+        k = z3.String('fd!k')
+        e = z3.Select(V.m(eng.val(out.st, r)), k)
+        return [('returns-a-fresh-Rules-object', z3.And(V.is_obj(r), clsof(V.ref(r)) == eng.cid('Rules'), V.ref(r) >= cx.st0.ap,
+                                                        V.ref(r) < out.st.ap, V.is_dict(eng.val(out.st, r)))),
+                ('with-the-given-default-rule', eng.get(out.st, r, 'default_rule') == cx['default_rule']),
+                ('holding-exactly-the-names-of-the-dict', qforall([k], (e != ABSENT) == (z3.Select(src, k) != ABSENT), patterns=[e])),
+                ('each-as-a-fresh-well-formed-check', qforall([k], z3.Implies(e != ABSENT, z3.And(
+                    V.is_obj(e), V.ref(e) >= cx.st0.ap, V.ref(e) < out.st.ap, eng.isinst(e, 'BaseCheck'), wf_tree(e))), patterns=[e])),
+                ('the-dict-handed-in-is-not-written', eng.val(out.st, cx['rules_dict']) == eng.val(cx.st0, cx['rules_dict']))]
+    reg.add(Contract('policy:Rules.from_dict', pre=fd_pre, post=fd_post,
+                     loops={1: LoopSpec(alloc_elem=rl_elem, havoc=('rules', 'rule', 'kind', 'match', '$val'))},
+                     allocates=True, modifies=('rules', 'rule', 'kind', 'match', '$val', 'default_rule'),
+                     frame=fresh_only, preserves=('wf_tree', 'wf_eval', 'pr', 'tree_height'), props=('C02',),
+                     assumptions=('the contract of parse_rule (parser driver) is assumed',),
+                     doc='a dict of rule values to a rule store: no name dropped or added, the caller\'s dict untouched'))
+
     # ------------------------------------------------------------------ _load_policy_file
     def cache_ok(eng, st, cache):
         m = V.m(z3.Select(st.H('$val'), V.ref(cache)))
